@@ -384,7 +384,19 @@ func runC10(cx *CheckCtx) {
 					okF = false
 				}
 				if na[0] != relAcc[1] && !a.holdsAt(notif.In, -a.eLit(relDel), a.eqLit(na[0], relAcc[1])) {
-					okF = false
+					// through intermediate variables (a helper's result bound to its local): equal in
+					// the state that knows the release happened
+					st2 := notif.In.clone()
+					st2.addUnit(a.lt, a.eLit(relDel))
+					same := false
+					for _, x := range a.eqClass(st2, na[0]) {
+						if x == relAcc[1] || a.Canon(st2, x) == a.Canon(st2, relAcc[1]) {
+							same = true
+						}
+					}
+					if !same {
+						okF = false
+					}
 				}
 			}
 			cx.decide(okN && okF, "ownership-change", "nns.Register/Transfer/args", "Transfer(previous owner | nil, owner, 1, name)", "the Transfer notification of a registration carries "+termList(na)+": the previous owner is not the stored owner whose balance was released", notif.Where(w))
